@@ -159,7 +159,7 @@ def side_case(rng):
 def run(ctx):
     quick = ctx.tier == 'quick'
     lib.stage_proof(ctx, PROP_FILES, ['Check/C03.vo'])
-    n_corr = 250 if quick else 3000
+    n_corr = 250 if quick else 6000
     cases, metas = [], []
     for k in range(n_corr):
         cs = ctx.rng.getrandbits(48)
@@ -186,7 +186,7 @@ def run(ctx):
 
     bad = lib.stage_correspondence(ctx, 'sweeps', REQ, 'check_C03', cases, metas, on_disagree=None, show_fn='run_C03')
 
-    n_side = 300 if quick else 6000
+    n_side = 300 if quick else 18000
     if bad:
         n_side *= 5
     for k in range(n_side):
